@@ -41,7 +41,7 @@
     reader returns for the written lines has the meaning btor2 assigns to those lines. *)
 From Coq Require Import List String NArith Bool.
 From Patronus Require Import SysClosed Btor2Parse Btor2Ser Btor2Sem Btor2Agree Btor2Witness Btor2NoCrash Btor2Sound Btor2ParseProofs Btor2SerProofs
-     Btor2RoundTripSpec Btor2RoundTrip Btor2RoundTripEnv.
+     Btor2RoundTripSpec Btor2RoundTrip Btor2RoundTripEnv Btor2SerNames Btor2RtNamed.
 Import ListNotations.
 Open Scope N_scope.
 
@@ -128,6 +128,51 @@ Theorem C09_roundtrip_sem_repo :
     exists sy' tau pull, (forall dbg, parse_lines_v v dbg lines = POk sy') /\ rt_agrees sy sy' tau pull.
 Proof. exact roundtrip_sem_fix. Qed.
 Print Assumptions C09_roundtrip_sem_repo.
+
+(** ** the same for the writer WITH its name bookkeeping *)
+(** [serialize_named_v wv sy nm] is the writer model that the correspondence check compares token by token
+    with serialize.rs: name tokens on declarations and nodes, label names on output / bad / constraint
+    lines, trailing alias lines [<id> uext <sort> <target> 0 <name>] (which shift the ids of the next
+    section).  For EVERY writer variant [wv] (shipped or repaired) and EVERY name table [nm]: whenever it
+    returns lines, the reader accepts them in both build profiles and the result corresponds to [sy]
+    exactly as in [C09_roundtrip_sem] - names only feed the reader's name bookkeeping, and an alias line
+    binds a fresh id, which nothing refers to, to its operand. *)
+Theorem C09_roundtrip_sem_named :
+  forall wv sy nm lines,
+    sys_ok_weak sy = true -> NoDup (declared sy) -> sys_fits sy = true ->
+    serialize_named_v wv sy nm = POk lines -> N.of_nat (List.length lines) <= U32MAX ->
+    exists sy' tau pull, (forall dbg, parse_lines dbg lines = POk sy') /\ rt_agrees sy sy' tau pull.
+Proof. exact roundtrip_sem_named. Qed.
+Print Assumptions C09_roundtrip_sem_named.
+
+(** The reader of /repo ([Fix]) and the prepared [Fix2].  [Fix2] (patches/0009) refuses an array operand
+    of [uext], the idiom of the alias lines: it goes with a writer that prints no array alias
+    (patches/0008, [w_no_array_alias]); with the shipped writer and [Fix2] an array alias line is an error
+    ([C09_fix2_needs_no_array_alias] below). *)
+Theorem C09_roundtrip_sem_named_repo :
+  forall v wv sy nm lines,
+    is_fix v = true -> (v = Fix2 -> w_no_array_alias wv = true) ->
+    sys_ok sy = true -> NoDup (declared sy) -> sys_fits sy = true ->
+    serialize_named_v wv sy nm = POk lines -> N.of_nat (List.length lines) <= U32MAX ->
+    exists sy' tau pull, (forall dbg, parse_lines_v v dbg lines = POk sy') /\ rt_agrees sy sy' tau pull.
+Proof. exact roundtrip_sem_named_fix. Qed.
+Print Assumptions C09_roundtrip_sem_named_repo.
+
+(** the hypothesis on [Fix2] is necessary: an array state named [mem] that an output with another name
+    refers to directly gets an alias line, which [Fix2] refuses *)
+Definition c09_arr_alias : sys :=
+  let m := ArraySymbol "mem" 2 8 in
+  {| s_inputs := [];
+     s_states := [ {| st_sym := m; st_init := None; st_next := Some m |} ];
+     s_outputs := [("o", m)]; s_bads := []; s_constraints := [] |}.
+
+Example C09_fix2_needs_no_array_alias :
+  sys_ok c09_arr_alias = true /\
+  match serialize_named_v writer_cur c09_arr_alias [] with
+  | POk ls => parse_lines_v Fix2 true ls = PErr /\ (exists sy', parse_lines_v Fix true ls = POk sy')
+  | _ => False
+  end.
+Proof. vm_compute. split; [reflexivity|]. split; [reflexivity|]. eexists. reflexivity. Qed.
 
 (** The complete, symmetric statement for closed systems (any reader variant [v]: [Cur] needs [sys_ok_weak]
     only, [Fix] = /repo and [Fix2] also need Boolean bad states and constraints): the system read back has
